@@ -1,39 +1,13 @@
-(* C10: the recorded known findings as theorems — on these inputs the faithful model of the code
+(* C10: the recorded known finding as a theorem — on these inputs the faithful model of the code
    and the specification differ (witnesses evaluated by the kernel). *)
-From Tetl Require Import Lib.Base C10.Model C10.Spec C10.ProofsStrto.
+From Tetl Require Import Lib.Base C10.Model C10.Spec.
 Local Open Scope Z_scope.
-
-Definition nines (n : nat) : list Z := repeat 57 n.
 
 (* KF-C10-from_chars-overflow-ptr: "99999x" into int8 *)
 Lemma from_chars_overflow_ptr_witness :
   from_chars_m i8 [57; 57; 57; 57; 57; 120] 10 7 = Ok (FcRange, 0%nat, 7)
   /\ from_chars_spec i8 10 [57; 57; 57; 57; 57; 120] = (PRange, 5%nat, None).
 Proof. vm_compute. split; reflexivity. Qed.
-
-(* KF-C10-strto-base0-ub: strtol("12", &e, 0) *)
-Lemma strto_base0_witness :
-  strto_m i64 [49; 50] 0 = UB DivByZero /\ strto_spec i64 0 [49; 50] = (12, 2%nat)
-  /\ strto_region i64 0 [49; 50] = true.
-Proof. vm_compute. repeat split; reflexivity. Qed.
-
-(* KF-C10-strto-hex-prefix: strtol("0x1A", &e, 16) *)
-Lemma strto_hex_prefix_witness :
-  strto_m i64 [48; 120; 49; 65] 16 = Ok (0, 1%nat) /\ strto_spec i64 16 [48; 120; 49; 65] = (26, 4%nat)
-  /\ strto_region i64 16 [48; 120; 49; 65] = true.
-Proof. vm_compute. repeat split; reflexivity. Qed.
-
-(* KF-C10-strto-no-saturation: strtol("99999999999999999999", &e, 10) *)
-Lemma strto_no_saturation_witness :
-  strto_m i64 (nines 20) 10 = Ok (0, 0%nat) /\ strto_spec i64 10 (nines 20) = (imax i64, 20%nat)
-  /\ strto_region i64 10 (nines 20) = true.
-Proof. vm_compute. repeat split; reflexivity. Qed.
-
-(* KF-C10-strtou-minus: strtoul("-1", &e, 10) *)
-Lemma strtou_minus_witness :
-  strto_m u64 [45; 49] 10 = Ok (0, 0%nat) /\ strto_spec u64 10 [45; 49] = (imax u64, 2%nat)
-  /\ strto_region u64 10 [45; 49] = true /\ sto_region u64 10 [45; 49] = true.
-Proof. vm_compute. repeat split; reflexivity. Qed.
 
 (** * the statements used in Properties.v *)
 Lemma from_chars_overflow_ptr_refuted : exists t s b v0 r,
@@ -43,29 +17,4 @@ Proof.
   exists i8, [57; 57; 57; 57; 57; 120], 10, 7, 5%nat.
   destruct from_chars_overflow_ptr_witness as [H1 H2].
   split; [cbn; lia|]. split; [lia|]. split; [exact H1|]. split; [exact H2|discriminate].
-Qed.
-
-Lemma strto_base0_refuted : exists t s,
-  strto_m t s 0 = UB DivByZero /\ strto_spec t 0 s = (12, 2%nat) /\ strto_region t 0 s = true.
-Proof. exists i64, [49; 50]. exact strto_base0_witness. Qed.
-
-Lemma strto_hex_prefix_refuted : exists t s r,
-  strto_m t s 16 = Ok r /\ strto_spec t 16 s <> r /\ strto_region t 16 s = true.
-Proof.
-  exists i64, [48; 120; 49; 65], (0, 1%nat). destruct strto_hex_prefix_witness as (H1 & H2 & H3).
-  split; [exact H1|]. split; [rewrite H2; discriminate|exact H3].
-Qed.
-
-Lemma strto_no_saturation_refuted : exists t s r,
-  strto_m t s 10 = Ok r /\ strto_spec t 10 s <> r /\ strto_region t 10 s = true.
-Proof.
-  exists i64, (nines 20), (0, 0%nat). destruct strto_no_saturation_witness as (H1 & H2 & H3).
-  split; [exact H1|]. split; [rewrite H2; discriminate|exact H3].
-Qed.
-
-Lemma strtou_minus_refuted : exists t s r,
-  sgn t = false /\ strto_m t s 10 = Ok r /\ strto_spec t 10 s <> r /\ strto_region t 10 s = true.
-Proof.
-  exists u64, [45; 49], (0, 0%nat). destruct strtou_minus_witness as (H1 & H2 & H3 & _).
-  split; [reflexivity|]. split; [exact H1|]. split; [rewrite H2; discriminate|exact H3].
 Qed.
